@@ -483,3 +483,168 @@ def check_clauses(ctx, tag, n):
     ctx.coverage['clause_verdicts'] = stats
     ctx.coverage['evaluations'] += len(texts) + len(ops)
     return stats.get('PLAgree', 0)
+
+
+# ------------------------------------------------------------------ conditions: lines of or-joined clauses (single_clauses)
+CN_HEADER = ('From Coq Require Import String ZArith NArith List.\nFrom GV.Model Require Import Ast.\nFrom GV.Model Require Import ValueParse QueryParse OpParse ClauseParse CnfParse.\n'
+             'Import ListNotations.\n')
+
+
+def impl_when_term(w):
+    k = w[0]
+    if k == 'WClause':
+        ac = w[1]
+        aq, cmp_, rhs, custom, neg = ac[1], ac[2], ac[3], ac[4], ac[6]
+        if has_filter(aq):
+            return 'IWOther'
+        rhs = rhs['O'] if isinstance(rhs, dict) and 'O' in rhs else rhs
+        if rhs is None:
+            wt = 'IRNone'
+        elif rhs[0] == 'LValue':
+            try:
+                wt = '(IRLit %s)' % pv_lit_term(rhs[1])
+            except ct.TranslateError:
+                wt = 'IROther'
+        elif rhs[0] == 'LAccess':
+            wt = 'IROther' if has_filter(rhs[1]) else '(IRQuery %s)' % ct.access_query(rhs[1])
+        else:
+            wt = 'IROther'
+        return '(IWClause %s %s O%s %s %s %s)' % (ct.cbool(neg), ct.access_query(aq), cmp_[1], ct.cbool(cmp_[2]), wt, ct.ostr(custom))
+    if k == 'WNamedRule':
+        g = w[1]
+        return '(IWNamed %s %s %s)' % (ct.cstr(ct.S(g[1])), ct.cbool(g[2]), ct.ostr(g[3]))
+    return 'IWOther'
+
+
+def impl_conds_term(res):
+    if res[0] != 'Ok':
+        return {'Error': 'ICNError', 'Failure': 'ICNFailure'}.get(res[0], 'ICNOther')
+    lines = [ct.clist([impl_when_term(w) for w in ct.L(d)]) for d in ct.L(res[1])]
+    return '(ICNOk %s %d%%N)' % (ct.clist(lines), res[2])
+
+
+CN_ELEMS = ['a exists', 'a == 1', 'not a.b[0] in [1, 2]', '%v.x >= 2 <<m>>', 'a == b', "a.'k' is_string", 'some a[*] != "s"', 'myrule', 'not myrule', '!other_rule', 'NOT r2', 'r3 <<because>>', 'r3  <<two words>>',
+            'r4 <m>', 'r5 == ', 'chk(a)', 'not chk(a, "x")', 'a empty', 'this !empty', 'a', 'not', 'or', 'orders exists', 'ORigin', 'a.b', 'x == [1,\n 2]', 'y == {k: 1}', 'rule_1#c', 'r6 {', 'r7{',
+            'a == /re/', 'a exists <<open', 'r8 <<open', 'é', 'a[ b == 1 ] exists', 'a == count(b)']
+CN_ORS = [' or ', ' OR ', ' |OR| ', '\n  or\n  ', ' or\n', '\nor ', ' or # c\n', ' # c\n or ', ' Or ', ' or', 'or ', ' | ', ' || ', ' |OR|', ' |or| ', '  OR\t', ' or or ']
+CN_SEPS = ['\n', '\n\n', '\n  ', ' ', '  # c\n', '\n# c\n', ';', ',', '\r\n']
+CN_TAILS = ['', '\n', ' {', '\n{', ' }', '\n}', ' # end', ' <<late>>', ' or', ' or\n']
+
+
+def gen_conds_text(rng):
+    lines = []
+    for _ in range(rng.choice([1, 1, 2, 2, 3])):
+        alts = [rng.choice(CN_ELEMS) if rng.random() < 0.8 else gen_clause_text(rng) for _ in range(rng.choice([1, 1, 2, 3]))]
+        line = alts[0]
+        for a in alts[1:]:
+            line += rng.choice(CN_ORS) + a
+        lines.append(line)
+    t = rng.choice(LAYOUTS)
+    for i, l in enumerate(lines):
+        t += l + (rng.choice(CN_SEPS) if i + 1 < len(lines) else '')
+    return t + rng.choice(CN_TAILS)
+
+
+def conds_corpus(seed, n):
+    rng = random.Random(seed * 4507 + 14)
+    texts = []
+    for e in CN_ELEMS:
+        texts += [e, e + '\n', e + ' {', ' ' + e + ' or a exists', 'a exists or ' + e, e + '\n' + e, e + ' or ' + e + '\nmyrule']
+    for o in CN_ORS:
+        texts += ['a exists' + o + 'b exists', 'myrule' + o + 'other', 'myrule' + o + 'b == 1', 'a == 1' + o + 'myrule\nr2', 'a == "s"' + o + 'b == "t"' + o + 'c exists']
+    for s_ in CN_SEPS:
+        texts += ['a exists' + s_ + 'b exists', 'myrule' + s_ + 'other', 'myrule' + s_ + 'b == 1' + s_ + 'r3', 'a == 1' + s_ + 'myrule']
+    texts += ['', ' ', '# c', '{', 'a ==', 'or', 'or a exists', 'a exists or', 'a exists or or b exists', 'a exists\nor b exists', 'a exists or\n\n\nb exists']
+    while len(texts) < n:
+        t = gen_conds_text(rng)
+        texts.append(t)
+        if rng.random() < 0.3:
+            texts.append(mutate(t, rng))
+    seen, out = set(), []
+    for t in texts:
+        if t not in seen:
+            seen.add(t); out.append(t)
+    return out
+
+
+def run_conds(texts, wd, tag='cnparse'):
+    from . import vparse
+    res = impl.run_ops_parallel([{'op': 'pconds', 'text': t} for t in texts], wd, tag + '.pn')
+    cands = sorted(set().union(*[vparse.regex_candidates(t) for t in texts])) if texts else []
+    cand_txt = []
+    for c in cands:
+        try:
+            cand_txt.append(c.decode('utf-8'))
+        except UnicodeDecodeError:
+            pass
+    rres = impl.run_ops_parallel([{'op': 'regex', 're': c, 'text': ''} for c in cand_txt], wd, tag + '.re') if cand_txt else []
+    valid = {}
+    for c, r in zip(cand_txt, rres):
+        rr = r.get('res')
+        valid[c] = bool(rr) and rr[0] == 'Ok'
+    cases, out = [], [None] * len(texts)
+    for i, (t, r) in enumerate(zip(texts, res)):
+        if 'res' not in r:
+            out[i] = (t, 'crash', r)
+            continue
+        mine = [c for c in cand_txt if c.encode('utf-8') in vparse.regex_candidates(t)] if '/' in t else []
+        table = ct.clist(['(%s, %s)' % (ct.cstr(c), ct.cbool(valid[c])) for c in mine])
+        rv = '(fun s => match assoc s %s with Some b => b | None => false end)' % table
+        try:
+            it = impl_conds_term(r['res'])
+        except (ct.TranslateError, KeyError, IndexError, TypeError):
+            it = 'ICNOther'
+        cases.append((i, '', 'conds_obs %s %s %s' % (rv, ct.cstr(t), it)))
+        out[i] = (t, None, r['res'])
+    verdicts, errors = model.eval_cases(cases, wd, tag, header=CN_HEADER, per_file=150)
+    if errors:
+        raise ToolingError('model evaluation failed: %r' % (errors[:1],))
+    for i, _, _ in cases:
+        out[i] = (out[i][0], verdicts.get(i, 'NoModelOutput'), out[i][2])
+    return out
+
+
+def check_conditions(ctx, tag, n):
+    """lines of or-joined clauses: Model/CnfParse.v against parser.rs single_clauses (the conditions of a when) through the hook `pconds`;
+    and on the implementation alone: or / OR / |OR| with different layouts around them give the same conjunction"""
+    texts = conds_corpus(ctx.seed, n)
+    out = run_conds(texts, ctx.wd, tag)
+    stats = {}
+    for t, v, r in out:
+        stats[v] = stats.get(v, 0) + 1
+        if v in ('PLAgree', 'PLAgreeReject', 'PLNotModelled'):
+            continue
+        ctx.failing('conditions %r: single_clauses answers %s, the model of the grammar says otherwise (%s)' % (t[:80], json.dumps(r)[:200], v),
+                    {'class': 'conditions-grammar-correspondence', 'text': t, 'impl': r, 'verdict': v}, found=False)
+    lines = [('a exists', 'b == 1'), ('myrule', 'other'), ('not r1', 'a.b[0] in [1, 2] <<m>>'), ('a == "s"', 'myrule'), ('%v.x >= 2', 'not a empty')]
+    ors = [' or ', ' OR ', ' |OR| ', '\n  or\n  ', ' # c\n OR # d\n ', '  |OR|\t']
+    ops = [{'op': 'pconds', 'text': a + o + b + '\nlast exists'} for a, b in lines for o in ors]
+    res = impl.run_ops(ops, ctx.wd, tag + '.or')
+    def strip(rr):
+        j = json.loads(json.dumps(rr[1]))
+        def go(x):
+            if isinstance(x, list):
+                if x and x[0] == 'Loc':
+                    return None
+                return [go(y) for y in x]
+            if isinstance(x, dict):
+                return {k_: go(v_) for k_, v_ in x.items()}
+            return x
+        return json.dumps(go(j), sort_keys=True)
+    k = 0
+    for a, b in lines:
+        seen = None
+        for o in ors:
+            rr = res[k].get('res'); k += 1
+            if not rr or rr[0] != 'Ok':
+                ctx.failing('%r between %r and %r is not accepted: %s' % (o, a, b, json.dumps(rr)[:160]), {'class': 'or-spelling', 'text': a + o + b}, found=True)
+                continue
+            sv = re.sub(r'\["Loc"[^\]]*\]', 'null', json.dumps(rr[1]))
+            if seen is None:
+                seen = sv
+            elif sv != seen:
+                ctx.failing('the separator %r between %r and %r gives another conjunction than ` or `' % (o, a, b), {'class': 'or-spelling', 'text': a + o + b}, found=True)
+    ctx.coverage['conditions_texts'] = len(texts)
+    ctx.coverage['conditions_verdicts'] = stats
+    ctx.coverage['evaluations'] += len(texts) + len(ops)
+    return stats.get('PLAgree', 0)
